@@ -332,6 +332,43 @@ pub fn scenarios() -> Vec<(&'static str, Op)> {
             let h = ok_or_none!(tiny_std::unix::misc::openpty::openpty(None, None, None));
             Held::raw(vec![h.master.value(), h.slave.value()])
         }),
+        // the caller names the slave: a path that is not a terminal (the window-size ioctl fails by itself) ...
+        ("openpty named slave /dev/null + winsize", |_e| {
+            let ws = rusl::platform::WindowSize::new(24, 80, 0, 0);
+            let h = ok_or_none!(tiny_std::unix::misc::openpty::openpty(Some(&us(b"/dev/null")), None, Some(&ws)));
+            Held::raw(vec![h.master.value(), h.slave.value()])
+        }),
+        // ... and the slave of another pty (opened by the harness through libc), with terminal settings and window size
+        ("openpty named slave pts + termios + winsize", |_e| {
+            let (m, path) = unsafe {
+                let m = libc::posix_openpt(libc::O_RDWR | libc::O_NOCTTY | libc::O_CLOEXEC);
+                if m < 0 || libc::grantpt(m) != 0 || libc::unlockpt(m) != 0 {
+                    if m >= 0 {
+                        libc::close(m);
+                    }
+                    return Held::none();
+                }
+                let mut buf = [0 as libc::c_char; 64];
+                if libc::ptsname_r(m, buf.as_mut_ptr(), buf.len()) != 0 {
+                    libc::close(m);
+                    return Held::none();
+                }
+                (m, std::ffi::CStr::from_ptr(buf.as_ptr()).to_bytes().to_vec())
+            };
+            let mut tio: libc::termios2 = unsafe { std::mem::zeroed() };
+            let got = unsafe { libc::ioctl(m, libc::TCGETS2, &mut tio as *mut libc::termios2) };
+            let ws = rusl::platform::WindowSize::new(30, 100, 0, 0);
+            let r = if got == 0 {
+                // same layout as the kernel's termios2, which rusl's Termios wraps
+                let t: rusl::platform::Termios = unsafe { std::mem::transmute_copy(&tio) };
+                tiny_std::unix::misc::openpty::openpty(Some(&us(&path)), Some(&t), Some(&ws))
+            } else {
+                tiny_std::unix::misc::openpty::openpty(Some(&us(&path)), None, Some(&ws))
+            };
+            unsafe { libc::close(m) };
+            let h = ok_or_none!(r);
+            Held::raw(vec![h.master.value(), h.slave.value()])
+        }),
         ("system_random", |_e| {
             let mut b = [0u8; 16];
             let _ = tiny_std::unix::random::system_random(&mut b);
